@@ -332,10 +332,30 @@ func ruleErrPropagates(rule string) RuleFn {
 							return false
 						}
 						last := r.Results[len(r.Results)-1]
-						v := env.Val(last)
-						if kc, isC := v.(*ssa.Const); isC && kc.IsNil() {
+						unrelated := false
+						if rv := env.Val(last); !env.KnownNil(last) {
+							// a merged value that cannot be the failing error (none of its sources is that error, and
+							// it is not a freshly made error either) means the failure was dropped for some older value
+							if _, isPhi := rv.(*ssa.Phi); isPhi {
+								unrelated = true
+								for _, o := range an.Origins(rv) {
+									if o == errVal || o == ssa.Value(k) {
+										unrelated = false
+									}
+									switch x := o.(type) {
+									case *ssa.MakeInterface, *ssa.Parameter, *ssa.FreeVar:
+										unrelated = false
+									case *ssa.Call:
+										if strings.HasPrefix(an.CalleeName(x), "dig.newErr") {
+											unrelated = false
+										}
+									}
+								}
+							}
+						}
+						if env.KnownNil(last) || unrelated {
 							// the governed exception: zero value for an optional parameter
-							if zk, isK := an.Resolve(r.Results[0]).(*ssa.Call); isK && an.CalleeName(zk) == "reflect.Zero" && an.ShortName(fn) == "(dig.paramSingle).Build" {
+							if zk, isK := an.Resolve(env.Val(r.Results[0])).(*ssa.Call); isK && an.CalleeName(zk) == "reflect.Zero" && an.ShortName(fn) == "(dig.paramSingle).Build" {
 								return false
 							}
 							return true
